@@ -57,7 +57,7 @@ def _key(fwa):
 
 
 PRESENTATIONS = ["(x,y)", "(x,y=y)", "(y=y,x=x)", "partial(x)(y)", "partial(y=y)(x)", "partial(x).partial(y)()",
-                 "partial(x)(y=y)", "partial(x=x)(y=y)"]
+                 "partial(x)(y=y)", "partial(x=x)(y=y)", "partial(x=x)(y)", "partial(y=y).partial(x)()"]
 
 
 def _present(i, x, y):
@@ -76,14 +76,19 @@ def _present(i, x, y):
         return FunctionReferenceWithArguments(G2.partial(x).partial(y).fn_reference(), (), {})
     if i == 6:
         return FunctionReferenceWithArguments(G2.partial(x).fn_reference(), (), {"y": y})
-    return FunctionReferenceWithArguments(G2.partial(x=x).fn_reference(), (), {"y": y})
+    if i == 7:
+        return FunctionReferenceWithArguments(G2.partial(x=x).fn_reference(), (), {"y": y})
+    if i == 8:
+        # a parameter bound by keyword through partial, the REMAINING parameters passed positionally
+        return FunctionReferenceWithArguments(G2.partial(x=x).fn_reference(), (y,), {})
+    return FunctionReferenceWithArguments(G2.partial(y=y).partial(x).fn_reference(), (), {})
 
 
 @obligation(
     "C04.presentations",
     covers=("partial", "keyword"),
     split={"pres": list(range(1, len(PRESENTATIONS)))},
-    bounds="g2(x, y, z=None); x, y: Union[None,bool,int |v|<=20,str <= 2 chars over {a b : _ space}]; 8 equivalent call presentations",
+    bounds="g2(x, y, z=None); x, y: Union[None,bool,int |v|<=20,str <= 2 chars over {a b : _ space}]; 10 equivalent call presentations",
     variables="data: x, y; choice: presentation",
     stubs=STUBS,
     budget_s={"quick": 170, "thorough": 600},
@@ -387,7 +392,7 @@ def reserved(v1: str, v2: str, ki: int):
     "C04.calls",
     covers=("hit", "miss"),
     split={"store": ["memory", "fs"]},
-    bounds="function-level: g2 called through the public API in 8 presentations for 6 concrete argument pairs; body runs once per "
+    bounds="function-level: g2 called through the public API in 10 presentations for 6 concrete argument pairs; body runs once per "
            "distinct binding, later presentations hit; the body receives exactly effective_kwargs",
     variables="choice: presentation, argument pair",
     budget_s={"quick": 120, "thorough": 300},
@@ -416,6 +421,7 @@ def calls(pres: int, pair: int, store: str):
             calls_ = [
                 lambda: g2(x, y), lambda: g2(x, y=y), lambda: g2(y=y, x=x), lambda: g2.partial(x)(y), lambda: g2.partial(y=y)(x),
                 lambda: g2.partial(x).partial(y)(), lambda: g2.partial(x)(y=y), lambda: g2.partial(x=x)(y=y),
+                lambda: g2.partial(x=x)(y), lambda: g2.partial(y=y).partial(x)(),
             ]
             r1 = calls_[pres]()
             cover("hit")
